@@ -3,6 +3,8 @@
 package dhcp4_spoofer
 
 import (
+	"crypto/rand"
+
 	"github.com/irai/packet"
 	"gopkg.in/yaml.v2"
 	"net"
@@ -161,7 +163,8 @@ func verif_contract_dhcp4_spoofer_Handler_allocIPOffer(h *Handler, lease *Lease,
 		vTrusted("first allocation from a subnet (scan position still unset): the first search loop then runs on the zero address")
 	}
 	vCanary()
-	vModifiesMems("dhcp4_spoofer.dhcpSubnet", "dhcp4_spoofer.Lease")
+	vModifiesField(lease, "IPOffer")
+	vModifiesField(lease.subnet, "nextIP") // the scan position; nothing else of the subnet, no other lease
 	err := h.allocIPOffer(lease, reqIP)
 	if err == nil {
 		vEnsures(spec_offerable(h, lease.subnet, lease.IPOffer))
@@ -200,4 +203,194 @@ func verif_contract_dhcp4_spoofer_sendDHCP4Packet(conn net.PacketConn, srcAddr p
 		vEnsures(vWireCount() == n0 || vWireCount() == n0+1)
 	}
 	return err
+}
+
+// ---------- the DHCP server handlers (C08: total on every DHCP message) ----------
+
+// spec_dhcp_ok: the handler invariant: open handler, two well-formed subnets, every lease is
+// bound to one of them (what Config.New / loadByteArray establish).
+func spec_dhcp_ok(h *Handler) bool {
+	return h != nil && h.session != nil && packet.VerifSpecSessionOK(h.session) && h.table != nil &&
+		spec_subnet_wf(h.net1) && spec_subnet_wf(h.net2) && spec_subnet_options_ok(h.net1) && spec_subnet_options_ok(h.net2) &&
+		vMapAll(h.table, func(k string, l *Lease) bool { return l != nil && (l.subnet == h.net1 || l.subnet == h.net2) })
+}
+
+// spec_subnet_options_ok: the reply options of a subnet (newSubnet: server id, mask, router, DNS;
+// appendRouteOptions: three more) are few and short: EncodeDHCP4 stages options in a fixed buffer.
+func spec_subnet_options_ok(n *dhcpSubnet) bool {
+	return n.options != nil && len(n.options) <= 12 && vMapAll(n.options, func(k packet.DHCP4OptionCode, v []byte) bool { return len(v) <= 32 })
+}
+
+// CopyOptions: a new map with the subnet's options.
+//
+//verif:props C08
+func verif_contract_dhcp4_spoofer_dhcpSubnet_CopyOptions(n *dhcpSubnet) packet.DHCP4Options {
+	vRequires(n != nil && spec_subnet_options_ok(n))
+	vCanary()
+	o := n.CopyOptions()
+	vEnsures(o != nil && vFreshMap(o) && len(o) <= 12 && vMapAll(o, func(k packet.DHCP4OptionCode, v []byte) bool { return len(v) <= 32 }))
+	return o
+}
+
+func verif_inv_dhcp4_spoofer_dhcpSubnet_CopyOptions_1(h *dhcpSubnet, opts packet.DHCP4Options, rangecount int) bool {
+	return h != nil && spec_subnet_options_ok(h) && opts != nil && 0 <= rangecount && rangecount <= len(h.options) && len(opts) <= rangecount &&
+		vMapAll(opts, func(k packet.DHCP4OptionCode, v []byte) bool { return len(v) <= 32 })
+}
+
+// nakPacket: total; nil or a DHCP message of at least 300 bytes written over the request.
+//
+//verif:props C08
+func verif_contract_dhcp4_spoofer_nakPacket(req packet.DHCP4, serverID, clientID []byte) packet.DHCP4 {
+	vRequires(len(serverID) <= 32 && len(clientID) <= 32)
+	vCanary()
+	vModifiesBytes(req[:cap(req)])
+	r := nakPacket(req, serverID, clientID)
+	vEnsures(r == nil || (300 <= len(r) && len(r) <= 921))
+	return r
+}
+
+// findOrCreate: total; returns a lease of the table bound to one of the two subnets.
+//
+//verif:props C08
+func verif_contract_dhcp4_spoofer_Handler_findOrCreate(h *Handler, clientID []byte, mac net.HardwareAddr, name string) *Lease {
+	vRequires(spec_dhcp_ok(h))
+	vCanary()
+	vModifiesMems("dhcp4_spoofer.Lease", "map:map[string]*github.com/irai/packet/handlers/dhcp4_spoofer.Lease/")
+	l := h.findOrCreate(clientID, mac, name)
+	vEnsures(l != nil && (l.subnet == h.net1 || l.subnet == h.net2))
+	vEnsures(spec_dhcp_ok(h))
+	return l
+}
+
+// spec_dhcp_msg: what ProcessPacket hands to the per-message handlers: a message that passed
+// DHCP4.IsValid and the option map DHCP4.ParseOptions built from it.
+func spec_dhcp_msg(p packet.DHCP4, options packet.DHCP4Options) bool {
+	return p.IsValid() == nil && options != nil
+}
+
+// handleDecline / handleRelease: total, never answer, keep the handler invariant.
+//
+//verif:props C08
+func verif_contract_dhcp4_spoofer_Handler_handleDecline(h *Handler, p packet.DHCP4, options packet.DHCP4Options) packet.DHCP4 {
+	vRequires(spec_dhcp_ok(h) && spec_dhcp_msg(p, options))
+	vCanary()
+	vModifiesMems("dhcp4_spoofer.Lease", "map:map[string]*github.com/irai/packet/handlers/dhcp4_spoofer.Lease/")
+	d := h.handleDecline(p, options)
+	vEnsures(d == nil && spec_dhcp_ok(h))
+	return d
+}
+
+//verif:props C08
+func verif_contract_dhcp4_spoofer_Handler_handleRelease(h *Handler, p packet.DHCP4, options packet.DHCP4Options) packet.DHCP4 {
+	vRequires(spec_dhcp_ok(h) && spec_dhcp_msg(p, options))
+	vCanary()
+	vModifiesMems("dhcp4_spoofer.Lease", "map:map[string]*github.com/irai/packet/handlers/dhcp4_spoofer.Lease/")
+	d := h.handleRelease(p, options)
+	vEnsures(d == nil && spec_dhcp_ok(h))
+	return d
+}
+
+// ---------- client side: packets the handler itself sends to the LAN's DHCP server ----------
+
+// SendDiscoverPacket: total for a well-formed session; sends at most one frame.
+//
+//verif:props C08
+func verif_contract_dhcp4_spoofer_Handler_SendDiscoverPacket(h *Handler, chAddr net.HardwareAddr, ciAddr netip.Addr, xid []byte, name string) error {
+	vRequires(h != nil && h.session != nil && packet.VerifSpecSessionOK(h.session))
+	vRequires(len(chAddr) == 6 && len(xid) == 4 && len(name) <= 32)
+	vCanary()
+	vModifiesWire()
+	err := h.SendDiscoverPacket(chAddr, ciAddr, xid, name)
+	return err
+}
+
+func verif_inv_dhcp4_spoofer_Handler_attackDHCPServer_1(h *Handler, i int, xID []byte, tmpMAC net.HardwareAddr) bool {
+	return h != nil && h.session != nil && packet.VerifSpecSessionOK(h.session) && 0 <= i && i <= 256 && len(xID) == 4 && len(tmpMAC) == 6
+}
+func verif_dec_dhcp4_spoofer_Handler_attackDHCPServer_1(i int) int { return 256 - i }
+
+// attackDHCPServer: total; only sends frames and updates the two package-level attack variables.
+//
+//verif:props C08
+func verif_contract_dhcp4_spoofer_Handler_attackDHCPServer(h *Handler, options packet.DHCP4Options) {
+	vRequires(h != nil && h.session != nil && packet.VerifSpecSessionOK(h.session) && len(fakeMAC) == 6)
+	vCanary()
+	vModifiesWire()
+	vModifiesMems("dhcp4_spoofer.nextAttack", "dhcp4_spoofer.fakeMAC")
+	vModifiesBytes(fakeMAC)
+	h.attackDHCPServer(options)
+	vEnsures(len(fakeMAC) == 6)
+}
+
+// sendDeclineReleasePacket: total for a well-formed session and a small option set.
+//
+//verif:props C08
+func verif_contract_dhcp4_spoofer_Handler_sendDeclineReleasePacket(h *Handler, msgType packet.DHCP4MessageType, clientID []byte, serverIP netip.Addr, chAddr net.HardwareAddr, ciAddr netip.Addr, xid []byte, options packet.DHCP4Options) error {
+	vRequires(spec_client_ok(h))
+	vRequires((xid == nil || len(xid) == 4) && (options == nil || (packet.VerifSpecOptionsSmall(options) && len(options) <= 19)))
+	vCanary()
+	vModifiesWire()
+	vModifiesMap(options)
+	err := h.sendDeclineReleasePacket(msgType, clientID, serverIP, chAddr, ciAddr, xid, options)
+	return err
+}
+
+// spec_client_ok: what the client-side senders need: a well-formed session with IPv4 host and
+// router addresses.
+func spec_client_ok(h *Handler) bool {
+	return h != nil && h.session != nil && packet.VerifSpecSessionOK(h.session) &&
+		h.session.NICInfo.HostAddr4.IP.Is4() && h.session.NICInfo.RouterAddr4.IP.Is4()
+}
+
+// crypto/rand.Read (standard library, TRUSTED): fills the buffer and returns no error (documented
+// since Go 1.24; on Linux earlier versions read getrandom(2), which does not fail either).
+func verif_extern_rand_Read(b []byte) (int, error) {
+	vModifiesBytes(b)
+	n, err := rand.Read(b)
+	vEnsures(err == nil && n == len(b))
+	return n, err
+}
+
+// forceDecline / forceRelease: total; they copy their arguments and send from a new goroutine
+// (checked as if it ran at once). LIMIT: client identifiers of at most 32 bytes (the staging
+// buffer argument of EncodeDHCP4's contract is per-option uniform).
+//
+//verif:props C08
+func verif_contract_dhcp4_spoofer_Handler_forceDecline(h *Handler, clientID []byte, serverIP netip.Addr, chAddr net.HardwareAddr, clientIP netip.Addr, xid []byte) {
+	vRequires(spec_client_ok(h) && len(clientID) <= 32 && (xid == nil || len(xid) == 4))
+	vCanary()
+	h.forceDecline(clientID, serverIP, chAddr, clientIP, xid)
+}
+
+//verif:props C08
+func verif_contract_dhcp4_spoofer_Handler_forceRelease(h *Handler, clientID []byte, serverIP netip.Addr, chAddr net.HardwareAddr, clientIP netip.Addr, xid []byte) {
+	vRequires(spec_client_ok(h) && len(clientID) <= 32 && (xid == nil || len(xid) == 4))
+	vCanary()
+	h.forceRelease(clientID, serverIP, chAddr, clientIP, xid)
+}
+
+// spec_dhcp_req: the request as ProcessPacket hands it over, plus what Parse and ParseOptions
+// guarantee about it: option values are views of at most 255 bytes (one length byte); the LIMIT
+// of this round is a client identifier of at most 32 bytes.
+func spec_dhcp_req(p packet.DHCP4, options packet.DHCP4Options) bool {
+	return spec_dhcp_msg(p, options) &&
+		len(options[packet.DHCP4OptionClientIdentifier]) <= 32 &&
+		len(options[packet.DHCP4OptionParameterRequestList]) <= 255 &&
+		(options[packet.DHCP4OptionParameterRequestList] == nil || !vSameRegion(options[packet.DHCP4OptionParameterRequestList], p) || vOffset(options[packet.DHCP4OptionParameterRequestList], p) >= 240)
+}
+
+// handleDiscover: total; nil or an OFFER of 300..921 bytes written over the request; keeps the
+// handler invariant. (NOT part of a registered check yet: see DESIGN.md section 13.)
+//
+//verif:timeout 120s
+func verif_contract_dhcp4_spoofer_Handler_handleDiscover(h *Handler, p packet.DHCP4, options packet.DHCP4Options) packet.DHCP4 {
+	vRequires(spec_dhcp_ok(h) && spec_client_ok(h) && spec_dhcp_req(p, options))
+	vCanary()
+	vModifiesHeap()
+	vModifiesWire()
+	vModifiesBytes(p[:cap(p)])
+	d := h.handleDiscover(p, options)
+	vEnsures(d == nil || (300 <= len(d) && len(d) <= 921))
+	vEnsures(spec_dhcp_ok(h) && spec_client_ok(h))
+	return d
 }
